@@ -26,7 +26,7 @@ def cli_check(solver, timeout_ms, want_model=False, opts=(), stage="cli"):
                            preexec_fn=budget.limit_cpu(budget.cpu_s(timeout_ms, stage)))
         out = p.stdout.strip()
         first = out.splitlines()[0].strip() if out else "unknown"
-        if first == "timeout" and budget.stopped_by_wall_clock(cpu0, timeout_ms, stage):
+        if first == "timeout" and budget.stopped_by_wall_clock(cpu0, timeout_ms, stage, t0):
             budget.wall_hit(stage)          # wall clock, not the CPU cap: machine too busy, no verdict
         if first not in ("sat", "unsat"):
             first = "unknown"
@@ -41,7 +41,7 @@ def cli_check(solver, timeout_ms, want_model=False, opts=(), stage="cli"):
                 mt = mt[:k]
         return first, mt
     except subprocess.TimeoutExpired:
-        if budget.stopped_by_wall_clock(cpu0, timeout_ms, stage):
+        if budget.stopped_by_wall_clock(cpu0, timeout_ms, stage, t0):
             budget.wall_hit(stage)
         return "unknown", ""
     except Exception:  # noqa (missing binary ...)
